@@ -59,6 +59,49 @@ def rich_origin(rng):
     return MultiOrigin((o1, o2)) if rng.random() < 0.5 else MultiOrigin([o2, o1, NO_ORIGIN])
 
 
+_FRESH_SRC = [0]
+
+
+def earlier_calls(rng, a):
+    """calls that happened BEFORE the round trip under test and must not influence it: the first serialization that ever
+    involves this tree's (fresh) sources is made with other options; a (de)serialization call with options fails part-way"""
+    k = rng.choice(["skip-class-first", "index-first", "failed-deser", "failed-deser-index", "explorer-first"])
+    try:
+        if k == "skip-class-first":
+            a.as_dict(serialization_options={SerializationOption.SKIP_CLASS: True})
+            a.to_json(serialization_options={SerializationOption.SKIP_CLASS: True, SerializationOption.SORT_KEYS: True})
+        elif k == "index-first":
+            a.as_dict(serialization_options={SOURCE_OPTIMIZED_SERIALIZATION_KEY: True})
+        elif k == "explorer-first":
+            from pyoak.node import AST_SERIALIZE_DIALECT_KEY, ASTSerializationDialects
+            a.as_dict(serialization_options={AST_SERIALIZE_DIALECT_KEY: rng.choice(list(ASTSerializationDialects))})
+        elif k == "failed-deser":
+            bad = rng.choice(["null", "[1, 2]", "{\"__type\": \"Leaf\"}", "{"])
+            try:
+                type(a).from_json(bad, serialization_options={SerializationOption.SKIP_CLASS: True, SOURCE_OPTIMIZED_SERIALIZATION_KEY: True})
+            except Exception:  # noqa
+                pass
+        else:
+            # an index-based payload read while its source table is not loaded: refused part-way
+            d = a.as_dict(serialization_options={SOURCE_OPTIMIZED_SERIALIZATION_KEY: True})
+
+            def bump(x):
+                if isinstance(x, dict):
+                    return {kk: (vv + 10 ** 6 if kk == "idx" and isinstance(vv, int) else bump(vv)) for kk, vv in x.items()}
+                if isinstance(x, (list, tuple)):
+                    return [bump(y) for y in x]
+                return x
+            d = bump(d)
+            d["id"] = "no-such-id"
+            try:
+                type(a).as_obj(d, serialization_options={SOURCE_OPTIMIZED_SERIALIZATION_KEY: True})
+            except Exception:  # noqa
+                pass
+    except Exception:  # noqa  (the earlier call itself may legitimately fail; only its after-effects matter)
+        pass
+    return k
+
+
 def serialize(n, fmt, opts):
     kw = {"serialization_options": opts} if opts else {}
     if fmt == "dict":
@@ -135,6 +178,13 @@ def cases(rng: random.Random, tier: str):
         gc.collect()
         g = zoo.Gen(rng, origins=True, share=0.12)
         g.origin = lambda: rich_origin(rng)
+        fresh_src = None
+        if rng.random() < 0.4:
+            # sources no earlier call has ever seen (every code origin of this tree points into them)
+            _FRESH_SRC[0] += 1
+            fresh_src = [MemoryTextSource("alpha beta gamma delta", source_uri=f"fresh{_FRESH_SRC[0]}-{i}") for i in range(2)]
+            g.origin = lambda: (CodeOrigin(rng.choice(fresh_src), get_code_range(0, 1, 0, rng.randint(0, 9), 1, 9))
+                                if rng.random() < 0.7 else rich_origin(rng))
         t0 = g.tree(rng.choice([1, 3, 6, 12, 25]))
         g.pool.clear()
         if rng.random() < 0.5:
@@ -153,7 +203,14 @@ def cases(rng: random.Random, tier: str):
             desc = f"{desc0} format={fmt} sort_keys={bool(opts)} originals={mode} twins={twins}"
             fail = None
             try:
+                p0 = None
+                if fresh_src is not None or rng.random() < 0.25:
+                    if fresh_src is None:
+                        p0 = serialize(a, fmt, opts)     # what this very call produces when nothing went on before
+                    desc += f" after[{earlier_calls(rng, a)}]"
                 payload = serialize(a, fmt, opts)
+                if p0 is not None and p0 != payload:
+                    raise AssertionError("the payload of the same call differs after an unrelated earlier call")
                 snap = snapshot(a)
                 nodes = [a] + [c for c, *_ in zoo.positions(a)]
                 refs = [weakref.ref(x) for x in nodes]
